@@ -37,6 +37,18 @@ CLAIMED = {
    text="Table-local half of C04 at the constraint level: the same cell faults on matrices captured from the real prover are evaluated with p3's DebugConstraintBuilder against each table's AIR (no proof), and compared with an independent row-relation evaluator that multiplies in the real extension field; relation fails and constraints vanish, or an honest row fails constraints, is a violation.",
    note="Const/Public/ALU (add, mul, bool, mul_add) tables at D=4 over BabyBear and KoalaBear with lane and Horner-K swarm; Horner rows and Poseidon/recompose tables not decoded by the oracle. BoolCheck's out = a tie is a bus matter and checked end to end in C04.",
    technique="deterministic simulation: exhaustive cell-fault enumeration on prover matrices with a constraint-level observer and relation oracle"),
+ "C07": dict(level="fault_enumeration", ref="DESIGN §5 C07",
+   text="Same prover -> transport -> {native, in-circuit} simulation as C01 with the fault space focused on what FRI consumes (commitments, claimed evaluations, the whole opening proof incl. per-step log_arity) and all five fault kinds on every such leaf, over a FRI-oriented shape swarm: mixed matrix heights down to single-row tables, arity schedules up to 2^4 incl. mixed, blow-up 1-3, final polynomial length 1-4, 1-3 queries, PoW bits 0-8, cap height 0-2.",
+   note="FRI is exercised through the PCS-level in-circuit verifier inside the STARK verifiers (challenges derived in-circuit) rather than through verify_fri_circuit with externally supplied challenges. Non-hiding, arity-2 MMCS.",
+   technique="deterministic simulation with message-fault enumeration focused on the FRI opening proof, parameter swarm"),
+ "C08": dict(level="fault_enumeration", ref="DESIGN §5 C08",
+   text="MMCS-only pair: native MerkleTreeMmcs commit/open/verify versus in-circuit verify_batch_circuit on seeded matrix batches (equal and mixed heights, widths not aligned to the rate, cap height 0-2); honest openings at every index, then every opened value, sibling digest word, index bit and cap entry word altered one at a time; verdicts must agree.",
+   note="Arity-2 trees, non-hiding, base-field leaves; U-KB4 and U-BB4.",
+   technique="deterministic simulation with exhaustive single-fault enumeration on Merkle openings, native verifier as oracle"),
+ "C16": dict(level="fault_enumeration", ref="DESIGN §5 C16",
+   text="Population of honest proofs (primitive-only; with Poseidon2 and recompose tables) and invalid-trace proofs made by the byzantine prover; the transport sets every metadata field outside `proof` to every value of a small well-formed set (plus option flips, string swaps, list swap/drop/duplicate, sampled pairs) and round-trips every member through postcard and JSON; no faulted invalid-trace proof may be accepted, metadata contradicting the verifier's field parameters must be rejected, round trips must preserve verdict and content.",
+   note="A panicking native verifier counts as a rejection for this property (counted in the evidence, thousands of cases, mostly stark_common / packing fields).",
+   technique="deterministic simulation with metadata-fault enumeration and serialization transport"),
  "C05": dict(level="exploration", ref="DESIGN §5 C05",
    text="Stateful component driven through seeded operation histories and compared step by step with a small executable reference model (the native DuplexChallenger) in six configurations, recompose table on/off, seeded hash order; a failing history is minimised to a few operations.",
    note="p3_challenger::DuplexChallenger is the reference model; observed values are public inputs so the builder cannot fold them.",
